@@ -13,8 +13,69 @@ def coreM (mk : Option MKey) (m : Mod) : Core := Mod.restoredCore [] mk m
 theorem coreM_none (m : Mod) : coreM none m = m.core := by
   simp [coreM, Mod.restoredCore, Mod.core]
 
-/-- the two loops of `lys_unres_glob_revert` -/
-def revertCore (s : Ctx) : Ctx := removeCreated (s.implementing.foldl unimplement s)
+/-- the two loops of `lys_unres_glob_revert` (the second one with what the repaired code does to `latest_revision`) -/
+def revertCore (s : Ctx) : Ctx :=
+  fixLatest (s.implementing.foldl unimplement s) (removeCreated (s.implementing.foldl unimplement s))
+
+/-- `m'` is `m` up to `latest_revision` -/
+def Mod.butLatest (m' m : Mod) : Prop := m' = { m with latest := m'.latest }
+
+theorem Mod.butLatest.refl (m : Mod) : m.butLatest m := rfl
+
+theorem Mod.butLatest.trans {a b c : Mod} (h1 : a.butLatest b) (h2 : b.butLatest c) : a.butLatest c := by
+  unfold Mod.butLatest at *
+  rw [h1, h2]
+
+/-- the repaired code touches nothing but `latest_revision` of the modules that stay -/
+theorem fixLatest_spec (s1 s2 : Ctx) :
+    ∃ g : Mod → Mod, (∀ m, (g m).butLatest m) ∧ fixLatest s1 s2 = { s2 with mods := s2.mods.map g } := by
+  have hR : ∀ (rm : List Mod) (t : Ctx), ∃ g : Mod → Mod, (∀ m, (g m).butLatest m) ∧
+      restoreLatest rm t = { t with mods := t.mods.map g } := by
+    intro rm t
+    refine ⟨fun m => if ((rm.filter (·.latest.rev)).map (·.src.name)).contains m.src.name && newestRev t.mods m.src.name == some m.key
+      then { m with latest := { m.latest with rev := true } } else m, ?_, rfl⟩
+    intro m
+    dsimp only
+    split
+    · rfl
+    · rfl
+  have hI : ∀ (t : Ctx), ∃ g : Mod → Mod, (∀ m, (g m).butLatest m) ∧ recomputeImported t = { t with mods := t.mods.map g } :=
+    fun t => ⟨fun m => { m with latest := { m.latest with imp := t.mods.any fun x => x.datelessTargets.contains m.key } },
+      fun _ => rfl, rfl⟩
+  have hid : ∃ g : Mod → Mod, (∀ m, (g m).butLatest m) ∧ s2 = { s2 with mods := s2.mods.map g } :=
+    ⟨id, fun m => Mod.butLatest.refl m, by simp⟩
+  unfold fixLatest
+  dsimp only
+  have h3 : ∃ g : Mod → Mod, (∀ m, (g m).butLatest m) ∧
+      (if s1.cfg.restoreLatest = true then restoreLatest (s1.mods.filter fun m => s1.creating.contains m.key) s2 else s2)
+        = { s2 with mods := s2.mods.map g } := by
+    split
+    · exact hR _ _
+    · exact hid
+  obtain ⟨g3, hg3, e3⟩ := h3
+  rw [e3]
+  split
+  · obtain ⟨g4, hg4, e4⟩ := hI { s2 with mods := s2.mods.map g3 }
+    refine ⟨g4 ∘ g3, fun m => (hg4 (g3 m)).trans (hg3 m), ?_⟩
+    rw [e4]
+    simp [List.map_map]
+  · exact ⟨g3, hg3, rfl⟩
+
+theorem Mod.butLatest.core {m' m : Mod} (h : m'.butLatest m) : m'.core = m.core := by
+  unfold Mod.butLatest at h; rw [h]; rfl
+
+theorem Mod.butLatest.key {m' m : Mod} (h : m'.butLatest m) : m'.key = m.key := by
+  unfold Mod.butLatest at h; rw [h]; rfl
+
+theorem Mod.butLatest.compiled {m' m : Mod} (h : m'.butLatest m) : m'.compiled = m.compiled := by
+  unfold Mod.butLatest at h; rw [h]
+
+theorem Mod.butLatest.toCompile {m' m : Mod} (h : m'.butLatest m) : m'.toCompile = m.toCompile := by
+  unfold Mod.butLatest at h; rw [h]
+
+theorem Mod.butLatest.restoredCore {m' m : Mod} (h : m'.butLatest m) (imp : List MKey) (mk : Option MKey) :
+    Mod.restoredCore imp mk m' = Mod.restoredCore imp mk m := by
+  unfold Mod.butLatest at h; rw [h]; rfl
 
 theorem revert_eq (s : Ctx) :
     revert s = if s.implementing.isEmpty then revertCore s else (compileAll (revertCore s)).2 := rfl
@@ -85,7 +146,19 @@ theorem foldl_unimplMod_core (imp : List MKey) : ∀ m : Mod,
 
 /-- the two loops give back exactly what `restore` announces -/
 theorem revertCore_cores (s : Ctx) : (revertCore s).mods.map (coreM mk) = restore mk s := by
-  unfold revertCore removeCreated
+  unfold revertCore
+  obtain ⟨g, hg, e⟩ := fixLatest_spec (s.implementing.foldl unimplement s) (removeCreated (s.implementing.foldl unimplement s))
+  rw [e]
+  have hgc : ∀ l : List Mod, (l.map g).map (coreM mk) = l.map (coreM mk) := by
+    intro l
+    rw [List.map_map]
+    apply List.map_congr_left
+    intro m _
+    exact (hg m).restoredCore [] mk
+  rw [show ({ removeCreated (s.implementing.foldl unimplement s) with
+      mods := (removeCreated (s.implementing.foldl unimplement s)).mods.map g } : Ctx).mods
+      = (removeCreated (s.implementing.foldl unimplement s)).mods.map g from rfl, hgc]
+  unfold removeCreated
   obtain ⟨h1, h2⟩ := foldl_unimplement s.implementing s
   simp only [h1, h2, restore, List.filter_map, List.map_map]
   have hf : ((fun m : Mod => !s.creating.contains m.key) ∘ fun m => s.implementing.foldl unimplMod m)
